@@ -216,10 +216,16 @@ async fn run_pair(seed: u64, case: &Case) -> Vec<SideOut> {
     let mut handles = vec![];
     for side in 0..2 {
         let inner = SqliteStore::temporary().await;
+        // rows are inserted in a random order: the queries, not the insertion order, must sort
+        let mut rows: Vec<(usize, usize, u32)> = vec![];
         for ((a, l), seqs) in &case.stores[side] {
             for s in seqs {
-                insert_op(&inner, uni.op(*a, *l, *s)).await;
+                rows.push((*a, *l, *s));
             }
+        }
+        Rng::new(seed ^ (0xD1CE + side as u64)).shuffle(&mut rows);
+        for (a, l, s) in rows {
+            insert_op(&inner, uni.op(a, l, s)).await;
         }
         let log = new_log();
         let store = Interposed::new(inner.clone(), uni.clone(), log.clone(), vec![], None);
